@@ -373,6 +373,19 @@ func runC18x(c c18Case, info *c18Info) *vstat.Failure {
 			}
 			must(os.WriteFile(abs(n), nil, 0o644))
 			tree[n] = "file"
+		case "replace-unseen":
+			// a tailed file is replaced by a new one of the same name while its
+			// stream sleeps; the pattern pollers look after the removal and again
+			// after the re-creation. The path stays tailed, by one stream.
+			if tree[n] != "file" || !tailed[n] {
+				break
+			}
+			must(os.Remove(abs(n)))
+			pw.Broadcast()
+			await(5*time.Second, func() bool { return pw.Waiting() == len(pats) })
+			must(os.WriteFile(abs(n), nil, 0o644))
+			pw.Broadcast()
+			await(5*time.Second, func() bool { return pw.Waiting() == len(pats) })
 		case "mknull":
 			// a matching name that is not a regular file (a symlink to a
 			// character device): never tailed, and no obstacle for the others
@@ -437,7 +450,7 @@ func TestC18(t *testing.T) {
 	st := vstat.New("C18", "histories on a real directory tree (files a.log b.log c.log ab.log x.log.gz note.txt sub/c.log sub/d.log, a directory named d.log) with 1-3 overlapping glob patterns (absolute, and relative resolved against the working directory) and an optional ignore regex: create, delete, rename (matching <-> non-matching names), mkdir/rmdir of the log-named directory, idle polls; after every step (pattern poll + stream wake barriers) a unique line is appended to EVERY regular file of the tree and must arrive exactly once, attributed to its path, for the model's tailed set and never for the others. non-trivial = a file matched by >= 2 patterns, or a deleted path re-created and tailed again; distinct by case")
 	st.Assumptions = []string{"glob matching of the model is a 30-line matcher of its own (*, [set], literal; per path component)", "a file is tailed from the next pattern poll after it exists; one tailer at a time (working directory is process-global)"}
 	st.Run(t, c18RunRaw, func() {
-		ops := []string{"create", "create", "create", "delete", "delete-recreate", "rename", "rename", "mkdir", "rmdir", "dir-to-file", "mknull", "rmnull", "poll"}
+		ops := []string{"create", "create", "create", "delete", "delete-recreate", "replace-unseen", "rename", "rename", "mkdir", "rmdir", "dir-to-file", "mknull", "rmnull", "poll"}
 		st.Check(t, func(rt *rapid.T) {
 			var c c18Case
 			defer st.Guard(func() any { return c })
